@@ -37,6 +37,12 @@ TRUSTED = ["Python-side oracle `determ_lib.oracle_rate` duplicates the Lean Spec
 TOL = 1e-9
 
 
+def out_of_time(ctx, extra=0):
+    """stop generating new cases: quick tier after 38 s of wall time (the check must end within 60 s), thorough after 15 min"""
+    import time
+    return (time.time() - ctx.t0) > ((38 if ctx.tier == "quick" else 900) + extra)
+
+
 def phys_dump(phys):
     return common.jsonable(phys)
 
@@ -350,15 +356,15 @@ def make_job(ctx, rng, kind=None, size1=False, allow_parallel=False, max_cells=8
 
 def run(ctx):
     rng = ctx.rng
-    nsys = ctx.n(44, 1500)
+    nsys = ctx.n(44, 900)
     jobs = []
     for k in range(nsys):
-        if ctx.time_left() < 25:
+        if out_of_time(ctx):
             ctx.notes.append("stopped generating after %d systems (time budget)" % k)
             break
         size1 = (k % 4 == 3)
         kind = "grid" if k % 2 == 0 else "graph"
-        jb = make_job(ctx, rng, kind=kind, size1=size1, allow_parallel=False, max_cells=ctx.n(8, 24))
+        jb = make_job(ctx, rng, kind=kind, size1=size1, allow_parallel=False, max_cells=ctx.n(8, 16))
         jobs.append(jb)
         if len(jobs) >= 22:
             process(ctx, jobs)
@@ -368,7 +374,7 @@ def run(ctx):
     # engine-only: graphs with parallel edges and self-loops (the statement restricts only the Python graph functions)
     pj = []
     for k in range(ctx.n(6, 150)):
-        if ctx.time_left() < 12:
+        if out_of_time(ctx, 8):
             break
         jb = make_job(ctx, rng, kind="graph", allow_parallel=True)
         pj.append(jb)
